@@ -34,7 +34,17 @@ def gen(rng, le, fmt, asz, version):
                         lb, exp, raw = L.gen_v5_list(rng, cfg, addrs, loc, start + il + 8 + len(body))
                         if not any('x' in k.split('_', 2)[2] for k in raw):           # drop base_addressx / startx_* kinds
                             break
-                    if rng.random() < 0.75:
+                    if loc and rng.random() < 0.3:
+                        # GNU location views: one (begin, end) ULEB128 pair per location entry, placed right before the list and
+                        # designated by DW_AT_GNU_locviews of the entry whose DW_AT_location designates the list
+                        nv = sum(1 for x in exp if x['kind'] == 'range')
+                        vo = start + il + 8 + len(body)
+                        pairs = [(rng.randrange(0, 100), rng.randrange(0, 100)) for _ in range(nv)]
+                        body += b''.join(bytes([a, b]) for a, b in pairs)
+                        # the list moved behind the pairs: shift its entry offsets
+                        exp = [dict(x, entry_offset=x['entry_offset'] + 2 * nv) for x in exp]
+                        designated.append((vo, exp, [(vo + 2 * i, a, b) for i, (a, b) in enumerate(pairs)]))
+                    elif rng.random() < 0.75:
                         designated.append((start + il + 8 + len(body), exp))
                     body += lb
                 body += bytes(rng.choice([0, 0, 2, 4]))                           # a gap after the last list of the block
@@ -50,12 +60,30 @@ def gen(rng, le, fmt, asz, version):
         secs[('debug_loclists' if version >= 5 else 'debug_loc') if loc else ('debug_rnglists' if version >= 5 else 'debug_ranges')] = data
         want[loc] = designated
     # .debug_info: root entry with one child per designated list, in shuffled order
-    refs = [(True, o) for o, _ in want[True]] + [(False, o) for o, _ in want[False]]
+    plain_loc = [d for d in want[True] if len(d) == 2]
+    viewed = [d for d in want[True] if len(d) == 3]
+    # an entry with location views also carries a further list-valued attribute (DW_AT_frame_base) designating another list
+    extra_for = {}
+    for d in viewed:
+        if plain_loc:
+            extra_for[d[0]] = plain_loc.pop()[0]
+    refs = [(True, d[0]) for d in plain_loc] + [(False, o) for o, _ in want[False]] + [('views', d[0]) for d in viewed]
     rng.shuffle(refs)
     form = 0x17 if version >= 4 else (0x06 if fmt == 32 else 0x07)          # sec_offset; data4 / data8 before version 4
     abbrev = uleb(1) + uleb(0x11) + b'\x01\x00\x00' + uleb(2) + uleb(0x34) + b'\x00' + uleb(0x02) + uleb(form) + b'\x00\x00' + \
-        uleb(3) + uleb(0x0b) + b'\x00' + uleb(0x55) + uleb(form) + b'\x00\x00' + b'\x00'
-    dies = uleb(1) + b''.join((uleb(2) if loc else uleb(3)) + cfg.off(o) for loc, o in refs) + b'\x00'
+        uleb(3) + uleb(0x0b) + b'\x00' + uleb(0x55) + uleb(form) + b'\x00\x00' + \
+        uleb(4) + uleb(0x34) + b'\x00' + uleb(0x2137) + uleb(form) + uleb(0x02) + uleb(form) + uleb(0x40) + uleb(form) + b'\x00\x00' + \
+        uleb(5) + uleb(0x34) + b'\x00' + uleb(0x2137) + uleb(form) + uleb(0x02) + uleb(form) + b'\x00\x00' + b'\x00'
+
+    def die(kind, o):
+        if kind == 'views':
+            d = next(x for x in viewed if x[0] == o)
+            list_off = o + 2 * len(d[2])
+            if o in extra_for:
+                return uleb(4) + cfg.off(o) + cfg.off(list_off) + cfg.off(extra_for[o])
+            return uleb(5) + cfg.off(o) + cfg.off(list_off)
+        return (uleb(2) if kind else uleb(3)) + cfg.off(o)
+    dies = uleb(1) + b''.join(die(k, o) for k, o in refs) + b'\x00'
     if version >= 5:
         hdr = cfg.u(5, 2) + bytes([1, asz]) + cfg.off(0)
     else:
@@ -70,7 +98,7 @@ def one_case(rng):
     version = rng.choice([5, 5, 4, 3])
     secs, want = gen(rng, le, fmt, asz, version)
     cfg = 'le=%s format=%d address_size=%d version=%d designated location lists at %r, range lists at %r' % (
-        le, fmt, asz, version, [o for o, _ in want[True]], [o for o, _ in want[False]])
+        le, fmt, asz, version, [d[0] for d in want[True]], [d[0] for d in want[False]])
     inp = ' '.join('%s=%s' % (k, v.hex()[:600]) for k, v in secs.items())
     dw = _dwarfinfo(secs, le, asz)
     for loc, obj, meth in ((True, dw.location_lists(), 'iter_location_lists'), (False, dw.range_lists(), 'iter_range_lists')):
@@ -83,8 +111,13 @@ def one_case(rng):
         got = list(getattr(obj, meth)())
         if len(got) != len(exp):
             return '%s yields %d lists, %d are designated' % (meth, len(got), len(exp)), cfg, inp
-        for g, (o, x) in zip(got, exp):
-            r = same_list(g, x, loc, version >= 5, '%s: list at %d' % (meth, o))
+        for g, d in zip(got, exp):
+            o, x = d[0], d[1]
+            views = d[2] if len(d) == 3 else []
+            gv = [(p.entry_offset, p.begin, p.end) for p in g[:len(views)] if type(p).__name__ == 'LocationViewPair']
+            if gv != views:
+                return '%s: the list at %d comes with the view pairs %r, encoded %r' % (meth, o, gv, views), cfg, inp
+            r = same_list(g[len(views):], x, loc, version >= 5, '%s: list at %d' % (meth, o))
             if r:
                 return r, cfg, inp
     return None
@@ -109,6 +142,6 @@ def enum(tier, seed):
     obs = [dict(name='bounded:dwarf/locationlists.py+ranges.py:enumeration', kind='bounded', verdict='refuted' if bad else 'proved',
                 backend='ground-eval(seeded differential, %d sections)' % n, time=0.0, bounded=True, detail=bad and bad['observed'], native=bad)]
     return dict(obligations=obs, assumptions=[
-        'BOUNDED: one unit, 0-9 designated lists, 1-3 unit blocks, gaps of 0-4 bytes; location view pairs are not generated'],
+        'BOUNDED: one unit, 0-9 designated lists, 1-3 unit blocks, gaps of 0-4 bytes; GNU location view pairs on some version 5 lists, whose entries carry a further list-valued attribute'],
         functions=[dict(function='elftools/dwarf/locationlists.py:LocationLists.iter_location_lists; ranges.py:RangeLists.iter_range_lists',
                         kind='bounded differential')], exhaustive=False)
